@@ -181,6 +181,15 @@ func evalWrite(line string) string {
 		bs, _ := strconv.Atoi(w[1])
 		a, b := splitSlash(w[2:])
 		return summ(realWrite(bs, bs%2 == 1, toksToArgs(a), toksToArgs(b)))
+	case "wcx", "!rtx":
+		// the SAME []string written twice (retry / redirect / reuse of a command): both frames and the slice afterwards
+		bs, _ := strconv.Atoi(w[1])
+		cmd := toksToArgs(w[2:])
+		out := realWrite(bs, bs%2 == 1, cmd, cmd)
+		if w[0] == "wcx" {
+			return summ(out) + " | " + showArgv(cmd)
+		}
+		return realDecodeArgvs(out, max(bs, 32), 2) + " | " + showArgv(cmd)
 	case "!rt":
 		bs, _ := strconv.Atoi(w[1])
 		return realDecodeArgvs(realWrite(bs, bs%2 == 1, toksToArgs(w[2:])), max(bs, 32), 1)
@@ -251,6 +260,14 @@ func (c *Ctx) writeCase(args []string) {
 	bs := c.wbuf()
 	toks := argToks(args)
 	nt := interesting(args)
+	for _, op := range []string{fmt.Sprintf("wcx %d%s", c.wbuf(), toks), fmt.Sprintf("!rtx %d%s", c.wbuf(), toks)} {
+		ans := evalWrite(op)
+		c.Hit(strings.Fields(op)[0])
+		c.Emit(op, ans, nt)
+		if want := showArgv(args) + " / " + showArgv(args) + " | " + showArgv(args); strings.HasPrefix(op, "!rtx") && ans != want {
+			c.Fail("writecmd:rewrite:"+shortKey(op), op, fmt.Sprintf("the same command written twice: frames and caller's argv afterwards are %.300q, expected %.300q", ans, want))
+		}
+	}
 	for _, op := range []string{fmt.Sprintf("wc %d%s", bs, toks), fmt.Sprintf("!rt %d%s", c.wbuf(), toks)} {
 		ans := evalWrite(op)
 		c.Hit(strings.Fields(op)[0])
@@ -328,7 +345,8 @@ func runWriteCmd(c *Ctx) {
 	rec(nil, 3)
 
 	// 3. argument lengths and argument counts across every decimal digit-count boundary
-	lens := []int{9, 10, 11, 99, 100, 101, 999, 1000, 1001, 9999, 10000, 10001, 99999, 100000, 100001, 999999, 1000000, 1000001}
+	lens := []int{9, 10, 11, 99, 100, 101, 999, 1000, 1001, 9999, 10000, 10001, 32767, 32768, 32769, 65535, 65536, 65537,
+		99999, 100000, 100001, 999999, 1000000, 1000001}
 	counts := []int{9, 10, 11, 99, 100, 101, 999, 1000, 1001}
 	if c.Tier == "thorough" {
 		lens = append(lens, 9999999, 10000000, 10000001)
@@ -341,6 +359,11 @@ func runWriteCmd(c *Ctx) {
 		c.Emit(op, evalWrite(op), true)
 		c.Hit("len-boundary")
 		c.writeCase([]string{"SET", "k", arg})
+		if l >= 30000 && l <= 70000 {
+			// allocator size-class thresholds: several large arguments in one command, large argument first/last
+			c.writeCase([]string{arg, "k", arg + "z"})
+			c.writeCase([]string{"MSET", "a", arg, "b", strings.Repeat("\n", l+1), "c", ""})
+		}
 	}
 	for _, n := range counts {
 		args := make([]string, n)
@@ -384,7 +407,7 @@ func runWriteCmd(c *Ctx) {
 
 func init() {
 	suites["writecmd"] = suite{
-		rule: "real writeN/writeB/writeCmd/flushCmd through bufio.Writer sizes {16,17,31,64,257,4096,4097,65536} (odd size => flushCmd, even => writeCmd+Flush) over a bytes.Buffer, compared byte for byte with the model (`wn` all n<1200, 10^k-1/10^k/10^k+1 and more for every k with n<2^47, random n<2^47 — these check the float leading-power hypothesis; `wb`/`wc` argument lengths and counts across every digit-count boundary up to 10^6+1 (10^7+1 thorough), all argvs of <=3 args over {empty, a, CRLF, 00ff, embedded frame}, random binary argvs; `wc2` two commands back to back); oracle lines `!rt`/`!rt2`: the real bytes are decoded by the real reader and must equal the written argv(s) with nothing left unread; non-trivial = distinct op with n>=10 / an empty, binary, CR/LF or >=10-byte argument, argc 0 or >=10, or a pipeline",
+		rule: "real writeN/writeB/writeCmd/flushCmd through bufio.Writer sizes {16,17,31,64,257,4096,4097,65536} (odd size => flushCmd, even => writeCmd+Flush) over a bytes.Buffer, compared byte for byte with the model (`wn` all n<1200, 10^k-1/10^k/10^k+1 and more for every k with n<2^47, random n<2^47 — these check the float leading-power hypothesis; `wb`/`wc` argument lengths and counts across every digit-count boundary up to 10^6+1 (10^7+1 thorough), all argvs of <=3 args over {empty, a, CRLF, 00ff, embedded frame}, random binary argvs; `wc2` two commands back to back; `wcx` the SAME []string written twice — both frames and the caller's slice afterwards, with arguments around 32767..65537 bytes too); oracle lines `!rt`/`!rt2`/`!rtx`: the real bytes are decoded by the real reader and must equal the written argv(s) with nothing left unread, and (`!rtx`) the second frame of a re-written command must decode to the same argv and the caller's slice must be unchanged; non-trivial = distinct op with n>=10 / an empty, binary, CR/LF or >=10-byte argument, argc 0 or >=10, or a pipeline",
 		run:  runWriteCmd,
 		replay: func(c *Ctx, lines []string) {
 			for _, l := range lines {
